@@ -194,6 +194,8 @@ def CoreShape (mdb : MDb) (target : String) : Bool :=
   by `_to_pattern` raises `IndexError`, with more it ignores the rest);
 * all labels, those of the `#Notation` statements included, are pairwise different; the proof cites no `#Notation` statement
   (`CoreShape` of the database without them: `proofShape`);
+* no `#Notation` statement has the head `\imp` or `\app` (`headsPlain`): their "constructor axioms" `imp-is-pattern` / `app-is-pattern`
+  are the built-in connectives, not constructor entries, and the converter has nothing to attach a body to;
 * without its `#Notation` statements the database is a database of the fragment (`CoreShape`). -/
 
 /-- `… $a #Pattern ( s a₁ … aₙ )`: head and arguments -/
@@ -248,6 +250,10 @@ def sugarShape (K heads : List String) : List (String × List String) → List S
           | some (s, args) => sugarShape K heads (cs ++ [(s, (mvNames args).getD [])]) seen r
           | none => sugarShape K heads cs seen r
 
+/-- no `#Notation` statement for `\imp` or `\app`: these two heads have no constructor ENTRY (`imp-is-pattern` / `app-is-pattern` are
+the built-in connectives, not constructors), so the converter has nothing to attach the body to -/
+def headsPlain (mdb : MDb) : Bool := (sugarsOf mdb).all fun sg => sg.2.1 != "\\imp" && sg.2.1 != "\\app"
+
 /-- the database `mdb` with the theorem `target` is a database of the supported fragment -/
 def FragmentShape (mdb : MDb) (target : String) : Bool :=
   let K := constsOf mdb
@@ -260,13 +266,19 @@ def FragmentShape (mdb : MDb) (target : String) : Bool :=
   heads.all (fun n => (ctorHeads.filter (· == n)).length == 1) &&
   ctorHeads.filter heads.contains == heads &&
   sugarShape K heads [] [] mdb &&
-  mdb.all (stmtArity (sugars.map fun sg => (sg.2.1, sg.2.2.1.length)))
+  mdb.all (stmtArity (sugars.map fun sg => (sg.2.1, sg.2.2.1.length))) &&
+  headsPlain mdb
+
+/-- the clause `headsPlain` of `FragmentShape` -/
+theorem headsPlain_of_fragmentShape {mdb : MDb} {target : String} (h : FragmentShape mdb target = true) : headsPlain mdb = true := by
+  simp only [FragmentShape, Bool.and_eq_true] at h
+  exact h.2
 
 /-- a database without `#Notation` statements: `FragmentShape` says what `CoreShape` says … -/
 theorem coreShape_of_sugarFree {mdb : MDb} {target : String} (h : FragmentShape mdb target = true) (hs : sugarFree mdb = true) :
     CoreShape mdb target = true := by
   simp only [FragmentShape, Bool.and_eq_true] at h
-  have := h.1.1.1.1.1.1
+  have := h.1.1.1.1.1.1.1
   rwa [coreOf_of_sugarFree hs] at this
 
 /-- … and a database of `CoreShape` has none -/
